@@ -516,74 +516,92 @@ func init() {
 					}
 					for miss := -1; miss < n; miss++ { // ordinal whose pod is missing (replaced by a stray pod of another name)
 						permutations(n, func(perm []int) {
-							idx++
-							if !c.Mine(idx) {
-								return
-							}
-							pods := make([]corev1.Pod, n)
-							for i := 0; i < n; i++ {
-								p := corev1.Pod{}
-								p.Name = fmt.Sprintf("rep1-%d", i)
-								if i == miss {
-									p.Name = fmt.Sprintf("rep1-%d", n+3) // a pod of a higher ordinal still terminating
+							for listMode := 0; listMode < 3; listMode++ {
+								// listMode 0: a missing pod is replaced in the list by a stray pod of a higher ordinal;
+								// 1: it is simply absent (deleted, not yet re-created); 2: a pod of another owner that
+								// carries the same labels is listed in addition
+								if listMode == 1 && miss < 0 {
+									continue
 								}
-								if ipmask&(1<<uint(i)) != 0 {
-									p.Status.PodIP = fmt.Sprintf("10.0.0.%d", i+1)
+								idx++
+								if !c.Mine(idx) {
+									continue
 								}
-								st := corev1.ConditionFalse
-								if readymask&(1<<uint(i)) != 0 {
-									st = corev1.ConditionTrue
-								}
-								p.Status.Conditions = []corev1.PodCondition{{Type: corev1.PodReady, Status: st}}
-								pods[i] = p
-							}
-							listed := make([]corev1.Pod, n)
-							for k, pi := range perm {
-								listed[k] = pods[pi]
-							}
-							cs := map[string]interface{}{"pods": n, "ipmask": ipmask, "readymask": readymask, "missing": miss, "order": append([]int{}, perm...)}
-							sts := c18Sts("rep1", int32(n), 1, [3]int32{int32(n), int32(n), int32(n)})
-							m := k8sshard.VerifNewShardManager(fake.NewSimpleClientset(), sts, 8080, false, c18Log(), func(lb map[string]string) (*corev1.PodList, error) {
-								return &corev1.PodList{Items: listed}, nil
-							})
-							sh, err := m.Shards()
-							r.States++
-							r.Transitions++
-							if n > 1 {
-								r.Nontrivial++
-							}
-							if err != nil {
-								viol("C18:shards-error", "shards", err.Error(), cs)
-								return
-							}
-							if len(sh) != n {
-								viol("C18:shards-count", "shards", fmt.Sprintf("%d pods listed, %d shards returned", n, len(sh)), cs)
-								return
-							}
-							for i, s := range sh {
-								var url string
-								s.APIGet = func(u string, ret interface{}) error { url = u; return fmt.Errorf("recorded") }
-								_, _ = s.RuntimeInfo()
-								p := pods[i]
-								present := i != miss
-								hasIP := present && p.Status.PodIP != ""
-								if present {
-									if s.ID != p.Name {
-										viol("C18:order", "order", fmt.Sprintf("position %d holds shard %q, expected pod %s", i, s.ID, p.Name), cs)
+								pods := make([]corev1.Pod, n)
+								for i := 0; i < n; i++ {
+									p := corev1.Pod{}
+									p.Name = fmt.Sprintf("rep1-%d", i)
+									if i == miss {
+										p.Name = fmt.Sprintf("rep1-%d", n+3) // a pod of a higher ordinal still terminating
 									}
-									if hasIP && !strings.HasPrefix(url, fmt.Sprintf("http://%s:8080/", p.Status.PodIP)) {
-										viol("C18:address", "address", fmt.Sprintf("position %d requests %q, expected http://%s:8080", i, url, p.Status.PodIP), cs)
+									if ipmask&(1<<uint(i)) != 0 {
+										p.Status.PodIP = fmt.Sprintf("10.0.0.%d", i+1)
+									}
+									st := corev1.ConditionFalse
+									if readymask&(1<<uint(i)) != 0 {
+										st = corev1.ConditionTrue
+									}
+									p.Status.Conditions = []corev1.PodCondition{{Type: corev1.PodReady, Status: st}}
+									pods[i] = p
+								}
+								var listed []corev1.Pod
+								for _, pi := range perm {
+									if listMode == 1 && pi == miss {
+										continue
+									}
+									listed = append(listed, pods[pi])
+								}
+								if listMode == 2 {
+									f := corev1.Pod{}
+									f.Name = "otherset-0"
+									f.Status.PodIP = "10.9.9.9"
+									f.Status.Conditions = []corev1.PodCondition{{Type: corev1.PodReady, Status: corev1.ConditionTrue}}
+									listed = append([]corev1.Pod{f}, listed...)
+								}
+								cs := map[string]interface{}{"pods": n, "ipmask": ipmask, "readymask": readymask, "missing": miss, "order": append([]int{}, perm...), "list_mode": []string{"stray-higher-ordinal", "absent", "foreign-pod-listed"}[listMode]}
+								sts := c18Sts("rep1", int32(n), 1, [3]int32{int32(n), int32(n), int32(n)})
+								m := k8sshard.VerifNewShardManager(fake.NewSimpleClientset(), sts, 8080, false, c18Log(), func(lb map[string]string) (*corev1.PodList, error) {
+									return &corev1.PodList{Items: listed}, nil
+								})
+								sh, err := m.Shards()
+								r.States++
+								r.Transitions++
+								if n > 1 {
+									r.Nontrivial++
+								}
+								if err != nil {
+									viol("C18:shards-error", "shards", err.Error(), cs)
+									continue
+								}
+								if len(sh) != n {
+									viol("C18:shards-count:"+cs["list_mode"].(string), "shards", fmt.Sprintf("StatefulSet with %d replicas, %d pods listed (%s): %d shards returned", n, len(listed), cs["list_mode"], len(sh)), cs)
+									continue
+								}
+								for i, s := range sh {
+									var url string
+									s.APIGet = func(u string, ret interface{}) error { url = u; return fmt.Errorf("recorded") }
+									_, _ = s.RuntimeInfo()
+									p := pods[i]
+									present := i != miss
+									hasIP := present && p.Status.PodIP != ""
+									if present {
+										if s.ID != p.Name {
+											viol("C18:order", "order", fmt.Sprintf("position %d holds shard %q, expected pod %s", i, s.ID, p.Name), cs)
+										}
+										if hasIP && !strings.HasPrefix(url, fmt.Sprintf("http://%s:8080/", p.Status.PodIP)) {
+											viol("C18:address", "address", fmt.Sprintf("position %d requests %q, expected http://%s:8080", i, url, p.Status.PodIP), cs)
+										}
+									}
+									if !hasIP && s.Ready {
+										viol("C18:ready-without-pod", "readiness", fmt.Sprintf("position %d is ready although its pod is missing or has no IP", i), cs)
+									}
+									if hasIP && readymask&(1<<uint(i)) != 0 && !s.Ready {
+										viol("C18:not-ready", "readiness", fmt.Sprintf("position %d not ready although pod runs with IP and Ready condition", i), cs)
 									}
 								}
-								if !hasIP && s.Ready {
-									viol("C18:ready-without-pod", "readiness", fmt.Sprintf("position %d is ready although its pod is missing or has no IP", i), cs)
+								if r.States%997 == 1 {
+									r.Sample(3, map[string]interface{}{"case": cs})
 								}
-								if hasIP && readymask&(1<<uint(i)) != 0 && !s.Ready {
-									viol("C18:not-ready", "readiness", fmt.Sprintf("position %d not ready although pod runs with IP and Ready condition", i), cs)
-								}
-							}
-							if r.States%997 == 1 {
-								r.Sample(3, map[string]interface{}{"case": cs})
 							}
 						})
 					}
